@@ -168,6 +168,17 @@ AGG = [
     {'P': lambda db: [(x, _none_if_empty([y for (x2, y) in db['Q'] if x2 == x], sum),
                        _none_if_empty([y for (y, x2) in db['Q'] if x2 == x], sum)) for (x,) in db['A']]},
     tags=('C02',)),
+  S('sibling_combines_dependent',
+    'P(x, a, b) :- A(x), a == Sum{y :- Q(x, y)}, b == Max{y + a :- R(x, y)};\n'
+    'P2(x, b) :- A(x), a == Sum{y :- Q(x, y)}, b == Sum{y * a :- Q(y, x)};', {'Q': 2, 'R': 2, 'A': 1},
+    {'P': lambda db: [(x, _sum([y for (x2, y) in db['Q'] if x2 == x]),
+                       _none_if_empty(nn([_add(y, _sum([y for (x2, y) in db['Q'] if x2 == x]))
+                                          for (x3, y) in db['R'] if x3 == x]), max))
+                      for (x,) in db['A']],
+     'P2': lambda db: [(x, _none_if_empty(nn([_mul(y, _sum([y for (x2, y) in db['Q'] if x2 == x]))
+                                              for (y, x3) in db['Q'] if x3 == x]), sum))
+                       for (x,) in db['A']]},
+    tags=('C02',), max_rows={'quick': 2, 'thorough': 2}),
   S('nested_combine', 'P(x, t) :- A(x), t == Sum{Max{z :- Q(y, z)} :- Q(x, y)};', {'Q': 2, 'A': 1},
     {'P': lambda db: [(x, _none_if_empty(nn([_none_if_empty([z for (y2, z) in db['Q'] if y2 == y], max)
                                              for (x2, y) in db['Q'] if x2 == x]), sum))
@@ -208,6 +219,18 @@ def _groups(rows, key, val):
   for r in rows:
     g.setdefault(key(r), []).append(val(r))
   return list(g.items())
+
+
+def _sum(vs):
+  return sum(vs) if vs else None
+
+
+def _add(a, b):
+  return None if a is None or b is None else a + b
+
+
+def _mul(a, b):
+  return None if a is None or b is None else a * b
 
 
 def _none_if_empty(vs, fn):
